@@ -21,7 +21,7 @@ func init() {
 		Assumptions: []string{"domain as stated: i inside the bitmap, i <= end <= 64*len, end >= 1 for PrevOne"},
 		Flavours:    releaseThenGo126,
 		Required: []string{"next/in-first-word", "next/after-skipped-zero-words", "next/next-word", "next/none", "next/found-but-beyond-end", "range/empty", "range/i-aligned", "range/end-aligned",
-			"prev/in-last-word", "prev/after-skipped-zero-words", "prev/prev-word", "prev/none", "prev/found-but-before-i", "bitmap>=500-words"},
+			"prev/in-last-word", "prev/after-skipped-zero-words", "prev/prev-word", "prev/none", "prev/found-but-before-i", "bitmap>=500-words", "bitmap>=65536-words"},
 		Families: func(c *mon.Config) []mon.Family {
 			return []mon.Family{
 				{Name: "all-ranges-structured", N: 3 * 4 * 4 * 3, Run: c13Structured},
@@ -132,6 +132,12 @@ func c13One(w *mon.W, bm []uint64, t *c13Tab, i, end int, cov *c13Cov) bool {
 }
 
 func c13All(w *mon.W, bm []uint64) bool {
+	bm, guard := argW(w, bm)
+	defer func() {
+		if !guard() {
+			w.Fail("NextPrev/wrote-outside-len-of-argument", mon.D{"nwords": len(bm)})
+		}
+	}()
 	orig := cloneWords(bm)
 	t := c13Tables(orig)
 	n := 64 * len(bm)
@@ -201,7 +207,11 @@ func c13AllZoo(w *mon.W, idx int) {
 func c13Long(w *mon.W, idx int) {
 	r := w.Rng
 	nw := 4 + r.Intn(61)
-	if idx%40 == 39 {
+	if idx%400 == 399 {
+		nw = 65536 + r.Intn(5000) // beyond 2^16 words
+		w.Bucket("bitmap>=65536-words")
+		w.Tick()
+	} else if idx%40 == 39 {
 		nw = 500 + r.Intn(2500) // long scans over thousands of words
 		w.Bucket("bitmap>=500-words")
 	}
@@ -214,6 +224,12 @@ func c13Long(w *mon.W, idx int) {
 			}
 		}
 	}
+	bm, guard := argW(w, bm)
+	defer func() {
+		if !guard() {
+			w.Fail("NextPrev/wrote-outside-len-of-argument", mon.D{"nwords": len(bm)})
+		}
+	}()
 	orig := cloneWords(bm)
 	t := c13Tables(orig)
 	n := 64 * nw
